@@ -163,16 +163,31 @@ func c37RunCase(r *vkit.Run, cs *c37Case) (highCounter, highQueue int, closed bo
 		}
 	}
 	// the flood is over (or the transport failed): the server must settle
-	// (only wait long when the counter is known to have passed the limit)
-	wait := 500 * time.Millisecond
-	if atomic.LoadInt64(&maxC) > int64(limit) || werr != nil {
-		wait = 15 * time.Second
+	// The server may still be working through input it has buffered (TCP). Wait until the serve
+	// goroutine has ended, or - as long as the counter has not passed the limit - until the serve
+	// loop has made no progress at all for a second (nothing left to process: the limit is not
+	// going to be crossed). Past the limit the connection gets 15 s to be observed closed.
+	deadline := time.Now().Add(15 * time.Second)
+	stableSince := time.Now()
+	prevLoop := atomic.LoadInt64(&maxC)
+waitLoop:
+	for time.Now().Before(deadline) {
+		select {
+		case <-tc.vc.Done():
+			closed = true
+			break waitLoop
+		case <-time.After(20 * time.Millisecond):
+		}
+		// the sampler itself makes the loop counter advance by one per sample; compare queue growth instead
+		if l := atomic.LoadInt64(&maxC); l != prevLoop {
+			prevLoop, stableSince = l, time.Now()
+		}
+		if atomic.LoadInt64(&maxC) <= int64(limit) && time.Since(stableSince) > time.Second {
+			break
+		}
 	}
-	select {
-	case <-tc.vc.Done():
-		closed = true
-	case <-time.After(wait):
-	}
+	_ = werr
+	sawCrossing := atomic.LoadInt64(&maxC) > int64(limit) // observed while the client was still connected
 	close(stopSampler)
 	tc.cli.Close()
 	wg.Wait()
@@ -204,6 +219,11 @@ func c37RunCase(r *vkit.Run, cs *c37Case) (highCounter, highQueue int, closed bo
 	if highCounter > limit+c37Slack || highQueue > limit+c37Slack {
 		r.Violation("flood:"+cs.Pattern+"-queue-unbounded",
 			fmt.Sprintf("%s: control-frame queue reached %d (counter %d) with limit %d after %d client frames", shape, highQueue, highCounter, limit, written), cs)
+	}
+	if highCounter > limit && !closed && !sawCrossing {
+		// the limit was passed only after the client had hung up: says nothing about closing
+		r.Count("limit_crossed_only_after_client_close", 1)
+		closed = true
 	}
 	if highCounter > limit && !closed {
 		r.Violation("flood:"+cs.Pattern+"-not-closed-past-limit",
